@@ -44,6 +44,13 @@ def main(only=None):
         m = json.load(open(meta))
         props = m.get("detected_by_checks") or [m["property"]]
         jobs.append((os.path.join(sd, "patch.diff"), props, True, "seeded/" + sid))
+    for meta in sorted(glob.glob(os.path.join(VERIF, "selftest", "loud", "*.json"))):
+        # my own single-site mutants (survivors of the mutation sweeps that exposed a blind spot): must be reported
+        lid = os.path.basename(meta)[:-5]
+        if only and only not in ('loud/' + lid):
+            continue
+        m = json.load(open(meta))
+        jobs.append((meta[:-5] + ".diff", m["checks"], True, "loud/" + lid))
     for meta in sorted(glob.glob(os.path.join(VERIF, "selftest", "quiet", "*.json"))):
         qid = os.path.basename(meta)[:-5]
         if only and only not in ('quiet/' + qid):
@@ -73,6 +80,10 @@ def cases_for(pid):
         props = m.get("detected_by_checks") or [m["property"]]
         if pid in props:
             jobs.append((os.path.join(sd, "patch.diff"), [pid], True, "seeded/" + os.path.basename(sd)))
+    for meta in sorted(glob.glob(os.path.join(VERIF, "selftest", "loud", "*.json"))):
+        m = json.load(open(meta))
+        if pid in m["checks"]:
+            jobs.append((meta[:-5] + ".diff", [pid], True, "loud/" + os.path.basename(meta)[:-5]))
     for meta in sorted(glob.glob(os.path.join(VERIF, "selftest", "quiet", "*.json"))):
         m = json.load(open(meta))
         if pid in m["checks"]:
